@@ -10,6 +10,9 @@ def run(ctx):
     bad = ctx.run_tlc("MC_PamClient.tla", "MC_PamClient_bad_staleerrno.cfg", workers=1, timeout=300)
     if bad["status"] != "violation":
         ctx.inconclusive.append("wrong variant MC_PamClient_bad_staleerrno.cfg not refuted")
+    bad3 = ctx.run_tlc("MC_PamClient.tla", "MC_PamClient_bad_deadline.cfg", workers=1, timeout=300)
+    if bad3["status"] != "violation":
+        ctx.inconclusive.append("wrong variant MC_PamClient_bad_deadline.cfg not refuted")
     bad2 = ctx.run_tlc("MC_PamClient.tla", "MC_PamClient_bad_sigpipe.cfg", workers=1, timeout=300)
     if bad2["status"] != "violation" or not any("PamYieldsCode" in e for e in bad2["errors"]):
         ctx.inconclusive.append("wrong variant MC_PamClient_bad_sigpipe.cfg not refuted")
@@ -43,7 +46,8 @@ def run(ctx):
                 "evaluations": n + nseq, "sequences_in_one_process": nseq, "distinct_nontrivial": len({json.dumps(e, sort_keys=True) for e in edges}),
                 "per_config": {"MC_PamClient_code.cfg": {"distinct": res["distinct"], "scripts": len(res["edges"])},
                                "MC_PamClient_bad_staleerrno.cfg": {"status": bad["status"], "expected": "violation of PamTerminates"},
-                               "MC_PamClient_bad_sigpipe.cfg": {"status": bad2["status"], "expected": "violation of PamYieldsCode"}},
+                               "MC_PamClient_bad_sigpipe.cfg": {"status": bad2["status"], "expected": "violation of PamYieldsCode"},
+                               "MC_PamClient_bad_deadline.cfg": {"status": bad3["status"], "expected": "stuck before the first write (never terminates)"}},
                 "rule": "every server script of the PamClient model (reply x cut point x delay x close/stall x errno on entry) is played "
                         "by a scripted unix-socket server against the compiled unmodified module (ASan+UBSan), with user/password "
                         "lengths 0..5000 and option combinations rotating over the scripts"})
